@@ -27,7 +27,7 @@ EXPLANATION = (
     "penetration depth.  Not decided: float rounding.")
 
 
-def run(ctx):
+def _run(ctx):
     lam = sp.Symbol("lam", positive=True)
     rho = sp.Symbol("rho", positive=True)
     w = neutron_world(ctx)
@@ -218,3 +218,14 @@ def run(ctx):
                    "lambda = h / sqrt(2 m_n E): the wavelength/energy/velocity conversions")
     ctx.unit("functions_inlined", len(set(I.calls)))
     ctx.assume("Im b_c <= 0 and sigma_s > 0 for every atom (table facts checked under C03-R7)")
+
+
+def run(ctx):
+    from spec.neutron import ConditionalResult
+    try:
+        _run(ctx)
+    except ConditionalResult as cr:
+        # a result whose *shape* depends on the data (None for some values of the data, numbers otherwise) wherever it turns up
+        ctx.fail("R1", "neutron results have the same shape for every atom with neutron data",
+                 f"the shape of a result depends on the data: {str(cr)[:300]} (an atom with b_c = 0, such as natural Sm, is not 'missing')",
+                 fsite(ctx, "nsf.neutron_scattering"))
